@@ -52,6 +52,8 @@ type Run struct {
 	harnessErr []string
 	replay     json.RawMessage
 	finished   bool
+	resumeAfter *int64
+	partsDir, replayDir, attempt string
 }
 
 type knownEntry struct {
@@ -95,6 +97,7 @@ func Start(prop, part string) *Run {
 		known:      map[string]knownEntry{},
 		knownSeen:  map[string]int64{},
 		violations: map[string]int64{},
+		partsDir: os.Getenv("VERIF_PARTS_DIR"), replayDir: os.Getenv("VERIF_REPLAY_DIR"), attempt: os.Getenv("VERIF_ATTEMPT"),
 	}
 	if p := os.Getenv("VERIF_KNOWN"); p != "" {
 		if f, err := os.Open(p); err == nil {
@@ -224,7 +227,7 @@ func (r *Run) Violation(fingerprint, detail string, caseDesc any) {
 		return
 	}
 	r.violOrder = append(r.violOrder, fingerprint)
-	dir := os.Getenv("VERIF_REPLAY_DIR")
+	dir := r.replayDir
 	if dir == "" {
 		dir = os.TempDir()
 	}
@@ -267,13 +270,16 @@ func (r *Run) Finish() {
 		return
 	}
 	r.finished = true
-	dir := os.Getenv("VERIF_PARTS_DIR")
+	dir := r.partsDir
 	if dir == "" {
 		fmt.Printf("vx: VERIF_PARTS_DIR not set; evals=%d nontrivial=%d violations=%d\n", r.evals, len(r.keys), len(r.violations))
 		return
 	}
 	os.MkdirAll(dir, 0o755)
 	base := filepath.Join(dir, fmt.Sprintf("%s.%s.%d", r.Prop, sanitize(r.Part), r.Shard))
+	if a := r.attempt; a != "" && a != "0" {
+		base += "-" + a
+	}
 	kb := make([]byte, 0, 8*len(r.keys))
 	for k := range r.keys {
 		kb = binary.LittleEndian.AppendUint64(kb, k)
@@ -291,6 +297,9 @@ func (r *Run) Finish() {
 		"caps_hit": r.capsHit, "known_seen": r.knownSeen, "violations": vio,
 		"violation_order": r.violOrder, "harness_errors": r.harnessErr,
 		"wall_s": time.Since(r.start).Seconds(), "replaying": r.replay != nil,
+	}
+	if r.resumeAfter != nil {
+		out["resume_after"] = *r.resumeAfter
 	}
 	b, _ := json.MarshalIndent(out, "", " ")
 	if err := os.WriteFile(base+".json", b, 0o644); err != nil {
@@ -317,3 +326,68 @@ func Catch(f func()) (p any) {
 
 // JSON is a helper rendering any value compactly for details / keys.
 func JSON(v any) string { b, _ := json.Marshal(v); return string(b) }
+
+// ---- watchdog: cases that hang or eat memory ---------------------------------
+//
+// A harness whose property includes termination calls Begin(idx, desc) before
+// each case. If one case runs longer than maxCase or the heap grows beyond
+// maxHeap, the watchdog reports it through onTrip (which must call Violation),
+// writes the part file with "resume_after" = idx and exits with code 3; the
+// driver restarts the shard after that case.
+
+type watch struct {
+	idx   int64
+	desc  any
+	since time.Time
+}
+
+var curCase struct {
+	sync.Mutex
+	w watch
+}
+
+// ResumeAfter is the case index after which this (restarted) shard continues; -1 if fresh.
+func ResumeAfter() int64 {
+	if v, err := strconv.ParseInt(os.Getenv("VERIF_RESUME_AFTER"), 10, 64); err == nil {
+		return v
+	}
+	return -1
+}
+
+func (r *Run) Begin(idx int64, desc any) {
+	curCase.Lock()
+	curCase.w = watch{idx, desc, time.Now()}
+	curCase.Unlock()
+}
+
+func (r *Run) StartWatchdog(maxCase time.Duration, maxHeapBytes uint64, onTrip func(desc any, why string)) {
+	go func() {
+		var ms runtimeMem
+		for {
+			time.Sleep(20 * time.Millisecond)
+			curCase.Lock()
+			w := curCase.w
+			curCase.Unlock()
+			if w.since.IsZero() {
+				continue
+			}
+			why := ""
+			if time.Since(w.since) > maxCase {
+				why = fmt.Sprintf("one case ran longer than %s", maxCase)
+			} else if h := ms.heap(); h > maxHeapBytes {
+				why = fmt.Sprintf("heap grew to %d MiB within one case", h>>20)
+			}
+			if why == "" {
+				continue
+			}
+			onTrip(w.desc, why)
+			r.mu.Lock()
+			r.counters["watchdog_trips"]++
+			r.bounds["resume_after"] = w.idx
+			r.mu.Unlock()
+			r.resumeAfter = &w.idx
+			r.Finish()
+			os.Exit(3)
+		}
+	}()
+}
